@@ -183,6 +183,10 @@ struct o3 {
 					std::string d = name.substr(hexa ? 2 : 1);
 					if (d.empty()) return fail("numeric-entity", "malformed numeric entity", i);
 					for (unsigned char ch : d) if (!(hexa ? isxdigit(ch) : isdigit(ch))) return fail("numeric-entity", "malformed numeric entity", i);
+					// a numeric character reference must denote a character: a Unicode scalar value (no surrogate half, high or low,
+					// nothing above U+10FFFF) that is not a C0 control other than TAB/LF/CR
+					{ unsigned long cp = d.size() > 8 ? 0xFFFFFFFFul : strtoul(d.c_str(), 0, hexa ? 16 : 10);
+					  if (cp > 0x10FFFF || (cp >= 0xD800 && cp <= 0xDFFF) || (cp < 0x20 && cp != 9 && cp != 10 && cp != 13)) return fail("numeric-entity", "numeric entity &#" + name.substr(1) + "; does not denote a character", i); }
 					shape += 'N';
 				} else {
 					bool okn = name == "lt" || name == "gt" || name == "amp" || name == "quot" || s.entities.count(name);
@@ -358,7 +362,7 @@ static std::string gen_input(rng &r, spec const &s)
 		case 0: case 1: { static char const *w[] = { "hello", " world ", "a b", "\xc3\xa9", "\xe2\x82\xac", "x\ny", "1 < 2", "tab\there", "q\"q", "it's" }; x += w[r.below(10)]; break; }
 		case 2: case 3: case 4: { std::string t = gen_tag(r, s); x += t; if (t.size() > 2 && t[1] != '/' && t[t.size() - 2] != '/' && r.chance(2, 3)) { size_t e = t.find_first_of(" \t/>", 1); open.push_back(t.substr(1, e - 1)); } break; }
 		case 5: if (!open.empty()) { x += "</" + open.back() + ">"; open.pop_back(); } else x += "</b>"; break;
-		case 6: { static char const *en[] = { "&amp;", "&lt;", "&gt;", "&quot;", "&nbsp;", "&copy;", "&bogus;", "&#65;", "&#x41;", "&#0;", "&#xD800;", "&#128;", "&#x10FFFF;", "&#x110000;", "&#9;", "&#;", "&#x;", "&amp", "&", "& ;", "&a b;", "&#1114111;", "&#xfffe;", "&AMP;", "&apos;" }; x += en[r.below(25)]; break; }
+		case 6: { static char const *en[] = { "&amp;", "&lt;", "&gt;", "&quot;", "&nbsp;", "&copy;", "&bogus;", "&#65;", "&#x41;", "&#0;", "&#xD800;", "&#xDBFF;", "&#xDC00;", "&#xdfff;", "&#57343;", "&#55296;", "&#128;", "&#x10FFFF;", "&#x110000;", "&#9;", "&#;", "&#x;", "&amp", "&", "& ;", "&a b;", "&#1114111;", "&#xfffe;", "&AMP;", "&apos;" }; x += en[r.below(30)]; break; }
 		case 7: { static char const *cm[] = { "<!-- c -->", "<!---->", "<!-->", "<!--->", "<!-- a -- b -->", "<!--[if IE]><script>x</script><![endif]-->", "<!-- <b> -->", "<!-- &amp; -->", "<!-- x --!>", "<!-- unterminated", "<!--x-->", "<!- x -->" }; x += cm[r.below(12)]; break; }
 		case 8: { static char const *jk[] = { "<", ">", "<<", ">>", "<!DOCTYPE html>", "<?php x ?>", "<![CDATA[x]]>", "< b>", "<b", "</>", "</ b>", "<b/ >", "<>", "<1>", "<b\f>", "<b\x0b>" }; x += jk[r.below(16)]; break; }
 		case 9: { static const std::string bad[] = { std::string(1, '\0'), "\x01", "\x7f", "\x80", "\xc0\xaf", "\xed\xa0\x80", "\xff", "\xc2\x85", "\xe2\x80", "\x1b" }; x += bad[r.below(10)]; break; }
@@ -401,6 +405,40 @@ int main(int argc, char **argv)
 	if (mode == "one") {
 		ruleset &rs = get_rules((uint64_t)a.num("rules_seed", 1));
 		check(rs.s, *rs.R, rs.js, unhex(a.str("input")));
+	} else if (mode == "long") {
+		// very long attribute values against pattern-valued attributes (the library's own uri_matcher() expression and a plain
+		// repeated group): the matcher works on untrusted text of any length and must come back with a verdict
+		rng r(a.num("seed", 1));
+		cppcms::xss::rules R;
+		R.html(cppcms::xss::rules::xhtml_input);
+		R.add_tag("a", cppcms::xss::rules::opening_and_closing);
+		R.add_tag("span", cppcms::xss::rules::opening_and_closing);
+		R.add_property("a", "href", cppcms::xss::rules::uri_matcher());
+		R.add_property("a", "rel", cppcms::xss::rules::uri_matcher("(http|https)"));
+		R.add_property("span", "title", booster::regex("(\\w+ ?)*"));
+		R.add_property("span", "class", booster::regex("([a-z]+|[0-9]+)(,([a-z]+|[0-9]+))*"));
+		static size_t const sizes[] = { 100, 1000, 2000, 4000, 7000, 10000, 20000, 50000, 120000 };
+		for (size_t n : sizes) {
+			std::vector<std::string> inputs;
+			inputs.push_back("<a href=\"http://host.example/" + std::string(n, 'a') + "\">x</a>");
+			inputs.push_back("<a href=\"http://host/" + [&]() { std::string p; while (p.size() < n) p += "seg" + std::to_string(r.below(100)) + "/"; return p; }() + "?q=1\">x</a>");
+			inputs.push_back("<a rel=\"https://h/" + std::string(n, 'b') + "\">y</a>");
+			inputs.push_back("<span title=\"" + [&]() { std::string p; while (p.size() < n) p += "word "; return p; }() + "\">t</span>");
+			inputs.push_back("<span class=\"" + [&]() { std::string p = "a"; while (p.size() < n) p += ",b1"; return p; }() + "\">t</span>");
+			inputs.push_back("<a href=\"javascript:" + std::string(n, 'a') + "\">x</a>");
+			for (auto const &in : inputs) {
+				O().count("long_value_inputs"); O().count("long_value_bytes", (long long)in.size());
+				bool v = cppcms::xss::validate(in.data(), in.data() + in.size(), R);
+				for (int how = 0; how < 2; how++) {
+					std::string out = cppcms::xss::filter(in, R, how ? cppcms::xss::escape_invalid : cppcms::xss::remove_invalid);
+					std::string rp = "{\"mode\":\"long\",\"value_bytes\":" + std::to_string(n) + ",\"input_prefix\":" + jstr(in.substr(0, 60)) + "}";
+					if (v && out != in) O().viol("xss:valid-input-changed", "long attribute value", rp);
+					if (!cppcms::xss::validate(out.data(), out.data() + out.size(), R)) O().viol("xss:output-does-not-validate", "long attribute value", rp);
+					if (out.find("javascript:") != std::string::npos && out.find("<a") != std::string::npos && out.find("&lt;a") == std::string::npos) O().viol("xss:output-outside-white-list:scheme", "javascript: survived in an href", rp);
+				}
+				O().count(v ? "long_values_accepted" : "long_values_refused");
+			}
+		}
 	} else {
 		rng r(a.num("seed", 1));
 		long long cases = a.num("cases", 1000);
